@@ -351,7 +351,7 @@ def discharge_all(ex, obligations, workdir, timeout_s=20, jobs=16, both=False, g
     if retry:
         def work1(item):
             o, txt = item
-            return o, decide(txt, workdir, o.id + "#nostr", timeout_s=timeout_s, order=("z3new", "z3old"), keep=False)
+            return o, decide(txt, workdir, o.id + "#nostr", timeout_s=timeout_s, order=("z3old",), keep=False)
         with ThreadPoolExecutor(max_workers=jobs) as pool:
             for o, r2 in pool.map(work1, retry):
                 old = results[o.id]
@@ -376,7 +376,7 @@ def discharge_all(ex, obligations, workdir, timeout_s=20, jobs=16, both=False, g
 
         def work2(item):
             o, txt = item
-            return o, decide(txt, workdir, o.id + "#hops%d" % hops, timeout_s=timeout_s, keep=False)
+            return o, decide(txt, workdir, o.id + "#hops%d" % hops, timeout_s=timeout_s, keep=False, order=("z3new", "cvc5"))
         with ThreadPoolExecutor(max_workers=jobs) as pool:
             for o, r2 in pool.map(work2, retry):
                 old = results[o.id]
